@@ -514,14 +514,46 @@ fn gen_case(rng: &mut Rng, fmt: Fmt) -> Case {
     let rows: Vec<u32> = book.sheets.iter().flat_map(|s| s.cells.keys().map(|k| k.0)).collect();
     let mut pick_name = |rng: &mut Rng| -> String {
         if rng.chance(1, 10) {
-            "no such sheet".to_string()
+            // a name no sheet carries: unrelated, or a near miss of a real one (other case, trailing blank, cut short)
+            let n = rng.pick(&names).clone();
+            let flipped: String = n.chars().map(|c| if c.is_ascii_lowercase() { c.to_ascii_uppercase() } else { c.to_ascii_lowercase() }).collect();
+            let cand = match rng.below(5) {
+                0 => flipped,
+                1 => format!("{n} "),
+                2 => n.chars().take(n.chars().count().saturating_sub(1)).collect(),
+                3 => n.to_lowercase(),
+                _ => "no such sheet".to_string(),
+            };
+            if names.contains(&cand) { "no such sheet".to_string() } else { cand }
         } else {
             rng.pick(&names).clone()
         }
     };
     let n = rng.range(3, 25);
     let mut ops = vec![];
+    let table_names: Vec<String> = book.sheets.iter().flat_map(|s| s.tables.iter().map(|t| t.name.clone())).collect();
+    let has_merges = book.sheets.iter().any(|s| !s.merges.is_empty());
     for _ in 0..n {
+        // a book with tables / merged regions gets histories that dwell on them: loads, repeated lookups of the same
+        // table with option changes in between, queries before and after a load
+        if !table_names.is_empty() && rng.chance(1, 4) {
+            ops.push(match rng.below(6) {
+                0 => Op::LT,
+                1 => Op::TN,
+                2 => Op::H(if rows.is_empty() || rng.chance(1, 3) { None } else { Some(*rng.pick(&rows)) }),
+                _ => Op::TB(rng.pick(&table_names).clone()),
+            });
+            continue;
+        }
+        if has_merges && rng.chance(1, 6) {
+            ops.push(match rng.below(4) {
+                0 => Op::LM,
+                1 => Op::MR,
+                2 => Op::MS(pick_name(rng)),
+                _ => Op::MC(pick_name(rng)),
+            });
+            continue;
+        }
         let k = rng.below(100);
         let op = if k < 14 {
             if rng.chance(1, 3) || rows.is_empty() {
@@ -552,7 +584,7 @@ fn gen_case(rng: &mut Rng, fmt: Fmt) -> Case {
         } else if k < 92 {
             Op::TN
         } else if k < 94 {
-            Op::TB("T1".into())
+            Op::TB((*rng.pick(&["T1", "T1", "T2", "T3", "t1", "nope"])).to_string())
         } else if k < 96 {
             Op::V
         } else if k < 98 {
@@ -666,10 +698,24 @@ fn run_case(case: &Case, drv: &mut Driver, rep: &mut Report) -> Vec<(String, Str
         return fails;
     }
     let names = live.sheet_names();
+    // what the two cache-filling calls return on this file (on a fresh reader): a failing load must leave no trace
+    let (lm, lt) = {
+        let mut fr = fresh(&bytes, fmt, None, false, false);
+        (perform(&mut fr, &Op::LM, true), perform(&mut fresh(&bytes, fmt, None, false, false), &Op::LT, true))
+    };
+    let okw = |s: &str| if s == "unit" || s == "unsupported" { "ok".to_string() } else { s.replace(' ', "_").replace(';', "_").replace(',', "_") };
+    if lm != "unit" && lm != "unsupported" {
+        rep.count(&format!("{}.load_merged_regions-fails", fmt.name()));
+    }
+    if lt != "unit" && lt != "unsupported" {
+        rep.count(&format!("{}.load_tables-fails", fmt.name()));
+    }
     let req = format!(
-        "hist {} sheets={} {}",
+        "hist2 {} sheets={} {} {} {}",
         if fmt.lazy() { "lazy" } else { "eager" },
         names.iter().map(|n| hex(n.as_bytes())).collect::<Vec<_>>().join(","),
+        okw(&lm),
+        okw(&lt),
         case.ops.iter().map(|o| o.wire()).collect::<Vec<_>>().join(";")
     );
     let reply = drv.ask(&req);
@@ -688,6 +734,10 @@ fn run_case(case: &Case, drv: &mut Driver, rep: &mut Report) -> Vec<(String, Str
         let mh = if f[0] == "d" { None } else { Some(f[0].parse::<u32>().unwrap()) };
         let (ml, mt) = (f[1] == "1", f[2] == "1");
         let sym = f[3];
+        // `reads_ignore_caches`: only the merged-region / table queries look at the caches; every other call is
+        // compared with a reader on which NO load was ever attempted
+        let uses_caches = matches!(op, Op::MR | Op::MS(_) | Op::TN | Op::TB(_) | Op::LM | Op::LT);
+        let (ml, mt) = if uses_caches { (ml, mt) } else { (false, false) };
         // xlsx-only calls on other formats are outside the API of those readers
         if got == "unsupported" {
             continue;
@@ -734,12 +784,23 @@ fn run_case(case: &Case, drv: &mut Driver, rep: &mut Report) -> Vec<(String, Str
             Op::W => {
                 // the model names the option under which each entry is read (eager readers: the default)
                 let wh = if fmt.lazy() { mh } else { None };
+                // a sheet whose read fails has no entry (`.ok()?` in the lazy readers)
                 let mut entries: Vec<String> = names
                     .iter()
-                    .map(|n| format!("{}={}", hex(n.as_bytes()), perform(&mut fresh(&bytes, fmt, wh, ml, mt), &Op::R(n.clone()), true)))
+                    .map(|n| (n, perform(&mut fresh(&bytes, fmt, wh, ml, mt), &Op::R(n.clone()), true)))
+                    .filter(|(_, r)| !r.starts_with("err:"))
+                    .map(|(n, r)| format!("{}={}", hex(n.as_bytes()), r))
                     .collect();
                 entries.sort();
+                // entries are matched BY NAME: sheets sharing a name (legal for the readers, which then resolve the
+                // name to the first of them) stand for one entry
+                entries.dedup();
                 let want = entries.join("&");
+                let got = {
+                    let mut g: Vec<&str> = got.split('&').collect();
+                    g.dedup();
+                    g.join("&")
+                };
                 if got != want && (mh.is_none() || fmt.lazy()) {
                     fails.push(("impl_vs_spec".into(), format!("{}:worksheets", fmt.name()), got.clone(), sym.into(), want.clone()));
                 }
